@@ -219,7 +219,8 @@ func render(lines []LLine, c *LayoutCase) string {
 			if lay.Comment == "" {
 				sb.WriteString(" ;")
 			}
-			sb.WriteString(strings.Repeat(" long comment", c.Big/13+1))
+			// Japanese text: almost every byte offset inside it lies in the middle of a character
+			sb.WriteString(strings.Repeat("\u3042\u30a2\u4e9c", c.Big/9+1))
 		}
 		last := i == len(lines)-1
 		if !last || c.FinalNL || l.Kind == "label" || len(c.Tail) > 0 {
@@ -278,6 +279,19 @@ func checkC12(c LayoutCase) Verdict {
 	}
 	can := canonical(lines)
 	re := render(lines, &c)
+	if c.CLI {
+		// cases that also go through the binary end with string data beyond ASCII: the bytes of a string depend on
+		// how the file was decoded, and that must not depend on the layout
+		tail := "\tDB \"\u65e5\u672c\",\"caf\u00e9\",0\n"
+		if !strings.HasSuffix(can, "\n") {
+			can += "\n"
+		}
+		can += tail
+		if !strings.HasSuffix(re, "\n") && !strings.HasSuffix(re, "\r") {
+			re += c.EOL
+		}
+		re += strings.ReplaceAll(tail, "\n", c.EOL)
+	}
 	v := Verdict{Key: re}
 	r0, r1 := asm.Assemble(can), asm.Assemble(re)
 	if r0.Panic != "" || r1.Panic != "" {
@@ -412,7 +426,7 @@ func genLayout(t *rapid.T, lines []LLine) []LineLayout {
 
 var propC12 = &Prop[LayoutCase]{
 	ID:   "C12",
-	Rule: "programs (generated from the C03 generator, or one of the book sources extracted from the repository's tests into /verif/corpus) tokenised into lines of tokens; re-layouts change only what lies between tokens: blanks/tabs in every gap (around commas, brackets, operators, after the mnemonic, around EQU), indentation, trailing blanks, ; and # comments after any line or on own lines (with quotes, commas, brackets, Japanese text), blank lines, LF / CRLF / CR line endings, final line break present or absent; oracle: same parse acceptance and byte-identical output as the canonical (minimal) layout, for one case in forty also through the gosk binary (half of those with a comment of 5 or 70 KiB); non-trivial = at least 3 layout edits of at least 2 kinds; distinct by re-laid-out text",
+	Rule: "programs (generated from the C03 generator, or one of the book sources extracted from the repository's tests into /verif/corpus) tokenised into lines of tokens; re-layouts change only what lies between tokens: blanks/tabs in every gap (around commas, brackets, operators, after the mnemonic, around EQU), indentation, trailing blanks, ; and # comments after any line or on own lines (with quotes, commas, brackets, Japanese text), blank lines, LF / CRLF / CR line endings, final line break present or absent; oracle: same parse acceptance and byte-identical output as the canonical (minimal) layout, for one case in forty also through the gosk binary (most of those with a Japanese comment of 0.6 .. 70 KiB, and with UTF-8 string data at the end); non-trivial = at least 3 layout edits of at least 2 kinds; distinct by re-laid-out text",
 	Gen: func(t *rapid.T) LayoutCase {
 		loadCorpus()
 		var c LayoutCase
@@ -439,7 +453,7 @@ var propC12 = &Prop[LayoutCase]{
 		// one case in forty goes through the binary as well (0.2 s per process), half of them with a very long comment
 		if rapid.IntRange(0, 39).Draw(t, "cli") == 17 {
 			c.CLI = true
-			c.Big = rapid.SampledFrom([]int{0, 0, 5000, 70000}).Draw(t, "bigcomment")
+			c.Big = rapid.SampledFrom([]int{0, 600, 1100, 2100, 4200, 8300, 70000}).Draw(t, "bigcomment")
 		}
 		return c
 	},
